@@ -675,9 +675,21 @@ def gen_case(rng, mode):
         inside = cov_doc('<rect x="-1000" y="-1000" width="3000" height="3000" fill="#ffffff"/>', []) if o == 1 else '-'
         info['opacity'] = o
     head = '<svg %s width="160" height="160"><defs>%s</defs>' % (NS, "".join(defs))
-    doc = '%s<g%s%s>%s</g></svg>' % (head, attr, gts_attr, content)
-    plain = '%s<g%s>%s</g></svg>' % (head, gts_attr, content)
-    info.update(doc=doc, plain=plain, ts=root, size=size, outside=outside, inside=inside)
+    inner_t = '<g%s%s>%s</g>' % (attr, gts_attr, content)
+    inner_p = '<g%s>%s</g>' % (gts_attr, content)
+    if mode in ('clip', 'mask', 'cover') and rng.below(4) == 0:
+        # NESTED isolation: the clipped / masked group sits inside another isolated group whose layer starts 1.5 .. 3 canvas sizes outside
+        # the canvas (a small shape far away stretches it); the far shape is never visible, the inner content is inside the canvas
+        k = rng.choice([1.5, 2, 2.5, 3])
+        far = rng.choice([(-160 * k, 60), (60, -160 * k), (160 * (k + 1) - 20, 60), (60, 160 * (k + 1) - 20), (-160 * k, -160 * k)])
+        iso = rng.choice([' style="isolation:isolate"', ' opacity="0.999"', ' opacity="0.5"', ' clip-path="url(#farclip)"', ' mask="url(#farmask)"'])
+        fardefs = ('<clipPath id="farclip"><rect x="-2000" y="-2000" width="4500" height="4500"/></clipPath>'
+                   '<mask id="farmask" maskUnits="userSpaceOnUse" x="-2000" y="-2000" width="4500" height="4500"><rect x="-2000" y="-2000" width="4500" height="4500" fill="#fff"/></mask>')
+        head = head.replace('</defs>', fardefs + '</defs>')
+        wrap = '<g%s><rect x="%s" y="%s" width="12" height="12" fill="#123456"/>%%s</g>' % (iso, num(far[0]), num(far[1]))
+        inner_t, inner_p = wrap % inner_t, wrap % inner_p
+        info['nested_far'] = '%s layer offset %s' % (iso.strip(), far)
+    info.update(doc=head + inner_t + '</svg>', plain=head + inner_p + '</svg>', ts=root, size=size, outside=outside, inside=inside)
     return info
 
 
@@ -1007,6 +1019,8 @@ def run(ctx):
         c['kind'] = c['mode']
         c['what'] = {'clip': 'the clip path', 'mask': 'the mask', 'opacity': 'group opacity %s' % c.get('opacity'),
                      'cover': 'an all-covering %s around thick open strokes' % c.get('cover')}[c['mode']]
+        if c.get('nested_far'):
+            c['what'] += ' nested in an isolated group whose layer starts far outside the canvas (%s)' % c['nested_far']
         if c.get('shared'):
             c['what'] += ' shared by several elements with different boxes (%s)' % c['units']
         for kind, text in classify(ctx, c, r, stats, "%s|%s" % (c['mode'], c['doc'])):
